@@ -41,7 +41,7 @@ TRUST = "trusts go-statemachine's in-order delivery of notifications (used to ob
 
 prop("C01", "Completed means delivered", "exploration", "e2e",
      "scenario-based property testing (rapid) of two complete nodes in one process (mocknet + real go-graphsync): relational oracle between both managers and an independent IPLD walk of the payload (block set, bytes, unique size)",
-     [hx("TestC01_E2E", 250, 6400, timeout_quick=1500, timeout_thorough=5400), hx("TestC03_Mgrx", 1500, 16000)],
+     [hx("TestC01_E2E", 250, 6400, timeout_quick=1500, timeout_thorough=5400), hx("TestC03_Mgrx", 1500, 16000), hx("TestC01_KnownCrashAfterCompleteSent", 1, 1, shards=1, rapid=False)],
      ["the property is conditional on the initiator reporting Completed after an Accept; runs that end otherwise (graphsync's asynchronous requester-side pause, link verification after re-requests) are classified and counted in the evidence, never judged",
       "goroutine interleavings inside graphsync / libp2p are sampled by the Go scheduler, not controlled; a failing case carries its two-sided event history in the replay file",
       "the clause about a pull satisfied from the initiator's own store is checked on the manager level (mgrx), real graphsync always produces a response before completion"],
